@@ -438,9 +438,15 @@ func (g *GoBackNConn) sendPacketsForever() error {
 			default:
 			}
 
-			// Start the pong timer.
-			g.pongTicker.Reset()
-			g.pongTicker.Resume()
+			// Start the pong timer, unless it is already running
+			// because an earlier ping has not been answered yet.
+			// Restarting it here would push the deadline back
+			// with every ping, and with a ping interval shorter
+			// than the pong timeout it would never expire.
+			if !g.pongTicker.IsActive() {
+				g.pongTicker.Reset()
+				g.pongTicker.Resume()
+			}
 
 			// Also reset the ping timer.
 			g.pingTicker.Reset()
@@ -505,8 +511,10 @@ func (g *GoBackNConn) sendPacketsForever() error {
 				default:
 				}
 
-				g.pongTicker.Reset()
-				g.pongTicker.Resume()
+				if !g.pongTicker.IsActive() {
+					g.pongTicker.Reset()
+					g.pongTicker.Resume()
+				}
 				g.pingTicker.Reset()
 
 			case <-g.pongTicker.Ticks():
